@@ -11,18 +11,19 @@ Script == CASE ScriptId = 1 -> <<"S", "S", "K", "S", "S">>
             [] ScriptId = 2 -> <<"S", "K", "S", "K", "S">>
             [] ScriptId = 3 -> <<"S", "S", "S", "S">>
             [] ScriptId = 4 -> <<"K", "S", "S", "S", "K", "S">>
-VARIABLES pc, phase, atts
-avars == <<vars, pc, phase, atts>>
-AInit == Init /\ pc = 1 /\ phase = "send" /\ atts = <<>>
+VARIABLES pc, phase, atts, epochs      \* epochs = modes of the key epochs the script opened
+avars == <<vars, pc, phase, atts, epochs>>
+AInit == Init /\ pc = 1 /\ phase = "send" /\ atts = <<>> /\ epochs = <<>>
 Log(a, i, r) == atts' = Append(atts, <<a, i, r>>)
 ANext ==
   \/ /\ phase = "send" /\ pc <= Len(Script)
-     /\ IF Script[pc] = "S" THEN SendMessage ELSE ActivateOutbound
+     /\ IF Script[pc] = "S" THEN SendMessage /\ epochs' = epochs
+                          ELSE \E m \in Modes : ActivateOutbound(m) /\ epochs' = Append(epochs, m)
      /\ pc' = pc + 1 /\ UNCHANGED <<phase, atts>>
   \/ /\ phase = "send" /\ pc > Len(Script)
-     /\ phase' = "attack" /\ UNCHANGED <<vars, pc, atts>>
+     /\ phase' = "attack" /\ UNCHANGED <<vars, pc, atts, epochs>>
   \/ /\ phase = "attack"
-     /\ UNCHANGED <<pc, phase>>
+     /\ UNCHANGED <<pc, phase, epochs>>
      /\ \E i \in 1..(Len(Script) + MaxTamper) :
            \/ \E r \in Regions : Flip(i, r) /\ Log("Flip", i, r)
            \/ DelByte(i) /\ Log("DelByte", i, "")
@@ -32,11 +33,11 @@ ANext ==
            \/ Swap(i)    /\ Log("Swap", i, "")
            \/ Cut(i)     /\ Log("Cut", i, "")
   \/ /\ phase = "attack" /\ atts # <<>>
-     /\ phase' = "read" /\ UNCHANGED <<vars, pc, atts>>
-  \/ /\ phase = "read" /\ UNCHANGED <<pc, phase, atts>>
+     /\ phase' = "read" /\ UNCHANGED <<vars, pc, atts, epochs>>
+  \/ /\ phase = "read" /\ UNCHANGED <<pc, phase, atts, epochs>>
      /\ \/ arrived < Cells * Len(wire) /\ Arrive(Cells * Len(wire) - arrived)
         \/ arrived = Cells * Len(wire) /\ ReadMessage
 ASpec == AInit /\ [][ANext]_avars
 Stopped == phase = "read" /\ arrived = Cells * Len(wire) /\ (rstate # "ok" \/ wire = <<>>)
-EmitAtt == Stopped => PrintT(<<"ATT", cfg.strict, cfg.zlib, atts, delivered, rstate>>)
+EmitAtt == Stopped => PrintT(<<"ATT", cfg.strict, cfg.zlib, <<cfg.mode0>> \o epochs, atts, delivered, rstate>>)
 =============================================================================
